@@ -624,7 +624,7 @@ fn main() {
     if rest.len() == 2 && rest[0] == "--emit" {
         std::process::exit(emit(&rest[1]));
     }
-    let ctx = Ctx::new("C17", tier, tier.pick(50, 560));
+    let ctx = Ctx::new("C17", tier, tier.pick(240, 900));
     let mut rep = Report::new();
     let failures: Mutex<Vec<Failure>> = Mutex::new(vec![]);
     let harness: Mutex<Vec<String>> = Mutex::new(vec![]);
